@@ -102,6 +102,15 @@ def run_to(W, cfg):
         W.ob_true('to(own flux unit, waveunit): waveunit recorded', t2.waveunit == cfg['to'])
         W.ob('to(own flux unit, waveunit) = to(waveunit): grid', t2.wave, two.wave)
         W.ob('to(own flux unit, waveunit) = to(waveunit): values', t2.value, two.value)
+        # several flux units (and a wavelength unit between them) in one call = the same conversions one call at a time
+        for third in FU:
+            c1 = mk(); c1.to(cfg['flux_to'], third)
+            c2 = mk(); c2.to(cfg['flux_to']); c2.to(third)
+            W.ob(f'to({cfg["flux_to"]}, {third}) in one call = two calls', c1.value, c2.value)
+            W.ob_true(f'to({cfg["flux_to"]}, {third}): last flux unit recorded', c1.valueunit == third)
+            c3 = mk(); c3.to(cfg['flux_to'], cfg['to'], third)
+            c4 = mk(); c4.to(cfg['flux_to']); c4.to(cfg['to']); c4.to(third)
+            W.ob(f'to({cfg["flux_to"]}, {cfg["to"]}, {third}) in one call = three calls', c3.value, c4.value)
         # a spectrum whose wavelength unit was set through the attribute or through resample(..., waveunit=) converts its flux like a fresh
         # spectrum in that state (the conversion depends on the wavelengths and their current unit only)
         rel = mk()
